@@ -54,6 +54,7 @@ type Explorer struct {
 	TimeoutMs         int
 	xcheck            string
 	reachBusy            map[string]bool
+	PerHarness           map[string]string // harness -> "paths=N wall=Ts"
 	AbsQueries, AbsUnsat int
 	AbsTime              time.Duration
 	PathLimitHit      bool
@@ -299,6 +300,15 @@ func (ex *Explorer) RunHarness(h *ssa.Function, name string) {
 	ex.mu.Unlock()
 	var wg sync.WaitGroup
 	var pathsThis int64
+	tStart := time.Now()
+	defer func() {
+		ex.mu.Lock()
+		if ex.PerHarness == nil {
+			ex.PerHarness = map[string]string{}
+		}
+		ex.PerHarness[name] = fmt.Sprintf("paths=%d wall=%.1fs", pathsThis, time.Since(tStart).Seconds())
+		ex.mu.Unlock()
+	}()
 	for i := 0; i < ex.Workers; i++ {
 		wg.Add(1)
 		go func(wid int) {
